@@ -29,6 +29,7 @@ PROPS['C15'] = dict(level='model_checking',
     H('v1_two_lockers', 'C15_mutex_v1.cpp', ['h_lock0', 'h_lock1'], 24, final='h_final2', desc='two async_lock contending'),
     H('v1_locker_vs_try', 'C15_mutex_v1.cpp', ['h_lock0', 'h_try'], 22, final='h_final1', desc='async_lock vs try_lock/unlock'),
     ] + [SEQ('v2_plan_%02d' % p, 'C15_mutex_v2.cpp', 'h_mutex_v2', opts=dict(params=[p], max_rec=4), desc='v2 cancellable mutex: holder + one waiter on a queueing scheduler, event plan %d (base-3: 0 unlock, 1 stop, 2 run scheduler)' % p) for p in range(27)] + [
+    H('v2_stop_vs_unlock', 'C15_race_v2.cpp', ['h_unlock', 'h_stop1'], 40, tier='thorough', timeout=3000, preempt=2, desc='v2 mutex: unlock() popping the head waiter races a stop request on the next queued waiter'),
     H('v1_two_lockers_try', 'C15_mutex_v1.cpp', ['h_lock0', 'h_lock1', 'h_try'], 30, final='h_final2', tier='thorough', timeout=3000, desc='two async_lock + one try_lock/unlock'),
   ])
 
@@ -82,6 +83,8 @@ PROPS['C01'] = dict(level='model_checking',
   outside='I/O context senders, thread pools (see C06)',
   harnesses=[SEQ('ev_%s_f%d' % (n, f), 'C04_events.cpp', 'h_ev_' + n, opts=dict(params=[f], max_rec=3), desc=n + ': exactly one completion under every event order; flags=%d' % f) for n in EV for f in (0, 1, 3, 5, 7) if not (n == 'finally' and f == 5)] +
             [SEQ('never_started', 'C04_events.cpp', 'h_never_started', opts=dict(max_rec=3), desc='connected but never started: no signal, no child started'),
+             H('wa_race_min', 'C01_race2.cpp', ['h_complete1', 'h_stop'], 26, setup='h_setup_wa', final='h_final_wa', desc='when_all: last child completing races an external stop request (real when_all atomics; minimal harness stop source for the outer token)'),
+             H('sw_race_min', 'C01_race2.cpp', ['h_complete0', 'h_stop'], 26, setup='h_setup_sw', final='h_final_sw', desc='stop_when: source completing races an external stop request'),
              H('wa_last_child_vs_stop', 'C01_race.cpp', ['h_complete1', 'h_stop'], 34, setup='h_setup_wa', final='h_final_wa', tier='thorough', timeout=3000, preempt=3, desc='when_all: last child completing races an external stop request (real atomics)')])
 
 PROPS['C17'] = dict(level='model_checking',
